@@ -33,6 +33,8 @@ THEOREMS = [
      "forall (A : Type) (t : tensor A) (idx : list N) (v : A), wf t -> valid (dims t) idx -> exists t', index_mut t idx v = Some t' /\\ wf t' /\\ dims t' = dims t /\\ index t' idx = Some v /\\ forall idx', valid (dims t) idx' -> idx' <> idx -> index t' idx' = index t idx'"),
     ('c19_write_order',
      'forall (A : Type) (t : tensor A), wf t -> write t = Some (render (dims t) (data t)) /\\ elems (render (dims t) (data t)) = data t'),
+    ('c19_write_nested',
+     'forall (A : Type) (t : tensor A), wf t -> write t = Some (nested (dims t) (data t))'),
     ('c19_debug_order',
      'forall (A : Type) (t : tensor A), wf t -> debug t = Some (debug_spec (dims t) (data t))'),
     ('c19_wraps_char',
@@ -50,15 +52,17 @@ RULE = ("every shape of rank 1..4 with extents <= K (K=3 quick, 5 thorough; quic
         "plus rank 0: three histories per shape on Tensor<i64, D> with distinct offset-tagged elements — (from_vec) "
         "get_index and Index at EVERY valid multi-index and at every index that is out of range in exactly one dimension "
         "(coordinate = extent for all combinations of the other coordinates, whether or not the flattened offset stays "
-        "inside the storage; sampled larger overshoots up to usize::MAX), iter, write, write+read round trip; (new) "
+        "inside the storage; sampled larger overshoots up to usize::MAX), iter, write, write+read round trip, Debug string; (new) "
         "IndexMut at every index in shuffled order interleaved with out-of-range writes, then iter / Index / write; "
         "(from_slice) == against equal, one-element-different, permuted-shape/equal-data and reshaped tensors; "
         "constructor rejections (a zero extent at each position with matching and non-matching length, length +-1), "
         "Tensor::read with other shapes of the same size, too few tokens, extra whitespace, zero extents. "
         "non-trivial = rank >= 2 with at least one indexed access, or a constructor rejection")
 TRUSTED = ["executor harness/crates/c19 (Tensor<i64, D> for D = 0..4: constructors, get_index, Index/IndexMut, iter, dims, "
-           "Writer over a Vec<u8>, Reader + Tensor::read, ==; vh::guarded per operation) ",
-           "checks/c19.py (case generator, lexer of the written bytes into element / ' ' / '\\n' tokens, Coq term printer)"]
+           "Writer over a Vec<u8>, Reader + Tensor::read, ==, format!(\"{:?}\"); vh::guarded per operation)",
+           "checks/c19.py (case generator, lexer of the written bytes into element / ' ' / '\\n' tokens and of the Debug string into element / '[' / ']' / ',' "
+           "tokens, Coq term printer)",
+           "extra(): python row-major oracle for the larger-shape search (a search, not part of the proof)"]
 ASSUMPTIONS = ["extents, indices and offsets are unbounded N in the model (no usize overflow: shapes are small; an index "
                "coordinate may be as large as usize::MAX because the bound assert precedes the multiplication)",
                "elements are abstract tokens in the written text: decimal rendering/parsing of integers is C08/C09's subject; "
@@ -555,7 +559,13 @@ def extra(ctx, known):
 
 MANIFEST = {
     "text": "Theorems (Coq, no axioms) about an executable rank-generic Gallina model of rlib_tensor (shape = list N of any "
-            "length, including rank 0): see evidence for the list compiled in this run. The model is tied to the code on every "
+            "length, including rank 0): get_index equals the row-major formula on valid multi-indices and is a bijection onto "
+            "[0, prod dims); any coordinate >= its extent panics in get_index/Index/IndexMut whatever the flattened offset; no "
+            "usize overflow inside get_index for constructed tensors; constructors reject zero extents and length mismatch and "
+            "otherwise keep shape and data; Index agrees with iter(); IndexMut writes exactly one element; the Writable (and "
+            "Debug) odometer terminates and emits the elements in storage order with ' ' / D-pos-1 newlines (brackets) as "
+            "separators; read(dims, write(t)) = t; == holds iff shape and data agree; model_check = spec_check for every case. "
+            "The model is tied to the code on every "
             "run: the executor instantiates Tensor<i64, D> for D = 0..4 from /repo and runs constructor / get_index / Index / "
             "IndexMut / iter / write / read / == histories over all small shapes (every valid index and every index out of "
             "range in exactly one dimension); Coq proves model = implementation and implementation |= row-major "
